@@ -16,6 +16,8 @@ LEAF_CALLS = []
 
 warnings.simplefilter('ignore')
 logging.disable(logging.CRITICAL)
+logging.getLogger('oslo_policy').addHandler(logging.NullHandler())
+logging.getLogger('oslo_policy').propagate = False
 
 
 def set_ctx(ctx):
